@@ -81,6 +81,25 @@ Theorem C14_exports_config : forall (c : cfg_text) (d : doc) (B B' : list defbod
 Proof. exact exports_loader. Qed.
 Print Assumptions C14_exports_config.
 
+(** Over the life of one loader instance: whatever sequence of load_config / emit calls is made, every
+    emitted module satisfies the property against the declaration file printed from the configuration text
+    that was loaded last before that emission (the default one before any load_config). *)
+Theorem C14_history : forall (h : list lop) (cur : cfg_text),
+  Forall (fun e => match e with (c, d, B, ops) =>
+      bodies_ok B = true -> names_ok (type_from_config (parse_config c)) d = true ->
+      length B = length (defs d) ->
+      incl (map zero_export (value_exports (scan (dts_of_config c d B)))) (value_exports (scan ops))
+      /\ default_names (scan (dts_of_config c d B)) = default_names (scan ops)
+    end) (run_loader cur h).
+Proof. exact history_ok. Qed.
+Print Assumptions C14_history.
+
+(** an emission depends only on the configuration loaded last before it *)
+Theorem C14_history_last_config : forall (h : list lop) (c : cfg_text) (r : list lop) (cur : cfg_text),
+  run_loader cur (h ++ LLoad c :: r) = run_loader cur h ++ run_loader c r.
+Proof. exact history_last_config. Qed.
+Print Assumptions C14_history_last_config.
+
 (** The JS module exports exactly what the property's reading asks for: a named export for every
     operation (named-export mode) and every fragment of the document's own file, under its
     variable name; a default export iff default-export mode and exactly one operation, bound to
